@@ -163,7 +163,11 @@ def run_A(scn, cfg, chooser, ref_cache=None):
     build_exc = None
     lazy_res = None
     try:
-        lazy_cube = S.make_lazy(scn, cube)
+        prewatch = {}
+        lazy_cube = S.make_lazy(scn, cube, watch=prewatch)
+        if prewatch:  # the buffers an upstream history reads from are inputs too (O3)
+            inputs.update(prewatch)
+            before.update(S.input_digests(prewatch))
         lazy_res = S.apply_op(scn, lazy_cube, lazy=True, aux=aux)
         decl = S.declared(lazy_res)
     except Exception as e:  # noqa: BLE001
@@ -188,6 +192,7 @@ def run_A(scn, cfg, chooser, ref_cache=None):
     comp_exc = None
     computed = None
     pair_computed = None
+    tee = tee_computed = None
     ex = None
     stats = proxies.ColdStats()
     if build_exc is None:
@@ -197,14 +202,19 @@ def run_A(scn, cfg, chooser, ref_cache=None):
             for k in kernels:
                 proxies.set_target(k, proxies.make_cold(k, cfg["slow_steps"], stats))
 
-            def body():
-                if True:  # warnings are silenced process-wide (catch_warnings is not thread-safe)
-                    if pair is not None:
-                        return dask.compute(lazy_res, pair["lazy"], scheduler=get, optimize_graph=cfg["optimize_graph"])
-                    (out,) = dask.compute(lazy_res, scheduler=get, optimize_graph=cfg["optimize_graph"])
-                return out, None
+            tee = lazy_cube if (scn.get("pipe") or {}).get("tee") else None
 
-            computed, pair_computed = sim.run(body)
+            def body():
+                # one graph: the result, optionally a second result (pair) and optionally the upstream
+                # cube itself (tee: a second consumer of the intermediate blocks the kernels read)
+                items = [lazy_res] + ([pair["lazy"]] if pair is not None else []) + ([tee] if tee is not None else [])
+                outs = list(dask.compute(*items, scheduler=get, optimize_graph=cfg["optimize_graph"]))
+                out = outs.pop(0)
+                pout = outs.pop(0) if pair is not None else None
+                tout = outs.pop(0) if tee is not None else None
+                return out, pout, tout
+
+            computed, pair_computed, tee_computed = sim.run(body)
         except StepLimit:
             rr.outcome = "step-cap"  # a bound of the exploration, neither error nor violation
         except HarnessInconclusive as e:
@@ -280,7 +290,12 @@ def run_A(scn, cfg, chooser, ref_cache=None):
             )
         if tuple(dshape) != tuple(g["shape"]):
             rr.violations.append(("declared-shape", f"{k}: lazy object declares shape {dshape} but computes {g['shape']}"))
-    # ---- the second result of the same graph -------------------------------------
+    # ---- the upstream cube computed in the same graph must still be the cube ----------
+    if tee is not None and tee_computed is not None:
+        rr.probes["tee_computed_in_one_graph"] = rr.probes.get("tee_computed_in_one_graph", 0) + 1
+        tv = np.asarray(tee_computed.values)
+        if tv.dtype != cube.data.dtype or not S.values_equal(tv, cube.data):
+            rr.violations.append(("upstream-intermediate-modified", "the dask-backed input cube, computed in the same graph as the result, no longer equals the data it was built from (a task changed a block that another task reads)"))
     if pair is not None and pair_computed is not None:
         rr.probes["pair_computed_in_one_graph"] = rr.probes.get("pair_computed_in_one_graph", 0) + 1
         for cls, msg in S.compare(pair["ref"], S.normalise(pair_computed)):
